@@ -48,7 +48,7 @@ def gen_dates(rng, n, style=None):
             elif style == "gaps":
                 step = rng.choice([1, 1, 1, 2, 3, 5, 9, 31, 70])
             else:
-                step = rng.choice([1, 3, 7, 14, 30, 45, 100, 370])
+                step = rng.choice([1, 3, 7, 14, 30, 45, 100, 370, 122, 243, 487, 730])  # (up to years between two dates: 4, 8, 16, 24 months)
             cur = cur + dt.timedelta(days=step)
     out = out[:n]
     return [d.isoformat() for d in out], style
